@@ -27,7 +27,7 @@ TECHNIQUE = ("differential twin execution (local paths vs in-process bzr:// Smar
              "operation program; per-op result/error-class equality + final local snapshots (branch, repo, check)")
 LEVEL_TEXT = ("held on the sampled programs: per-op results and final locally-read states were equal between a local "
               "and a smart-server execution, for the operation kinds, formats and server modes listed in the histogram")
-RULE = ("case = one history (format x 2-3 branches x merges x tags, for pack formats in 45% a ghost of one served repository that "
+RULE = ("case = one history (format x 2-3 branches x merges x tags, for pack formats in 60% a ghost of one served repository that "
         "another repository holds) copied to twins + one program of N ops "
         "(quick 10-14, thorough 14-22) generated online from the local twin's state over {commit via lightweight "
         "checkout(+update/merge), fetch, pull, push, push to new location, sprout, tag set/delete/read, config "
@@ -42,7 +42,7 @@ RULE = ("case = one history (format x 2-3 branches x merges x tags, for pack for
         "comparison; non-trivial = the op addressed a served (bzr://) location; distinct = (op kind, lock mode, "
         "handle slot, outcome class, format, server mode)")
 CASES = {"quick": 48, "thorough": 400}
-BUDGET_S = {"quick": 35, "thorough": 800}
+BUDGET_S = {"quick": 45, "thorough": 800}
 MIN_EVALS = {"quick": 250, "thorough": 3000}
 FLOORS = {
     "oracle_op_result": 200,
@@ -629,7 +629,7 @@ def case(ctx):
                 xwt.branch.tags.set_tag(rng.choice(TAGS), xwt.last_revision())
         names.append("x0")
         planted = None
-        if rng.random() < 0.45 and fmt not in REPO_LOCK_FORMATS:
+        if rng.random() < 0.6 and fmt not in REPO_LOCK_FORMATS:
             # (between two knit repositories a local fetch always searches the whole ancestry - InterKnitRepo's
             # search_missing_revision_ids has no walk-to-common-revisions path - while the fetch into a served repository takes the
             # generic path that honours find_ghosts=False; the parameter leaves that latitude, so no fillable ghosts there)
